@@ -3,3 +3,5 @@ open Biogo.Properties.C11_checker
 #print axioms checkCycle_sound
 #print axioms checkHistory_sound
 #print axioms historyStatement_sound
+#print axioms checkHistory_complete
+#print axioms checkHistory_iff
